@@ -1,4 +1,5 @@
 import Gocc.Model.LR1
+import Gocc.Model.LexGen
 /-
 Termination (fuel adequacy) of the two unbounded fixed-point loops of the parser generator:
   * `GetFirstSets`  (`firstPass` / `firstSetsFuel` / `firstSets`)
@@ -11,7 +12,7 @@ namespace Gocc
 
 /-! ## Generic helpers -/
 
-theorem mem_addNoDup {l : List String} {s t : String} : t ∈ addNoDup l s ↔ t ∈ l ∨ t = s := by
+theorem addNoDup_mem_iff {l : List String} {s t : String} : t ∈ addNoDup l s ↔ t ∈ l ∨ t = s := by
   unfold addNoDup
   split
   · rename_i h
@@ -23,13 +24,13 @@ theorem mem_addNoDup {l : List String} {s t : String} : t ∈ addNoDup l s ↔ t
       · subst h'; exact hs
   · simp
 
-theorem mem_foldl_addNoDup {f : List String} :
+theorem foldl_addNoDup_mem_iff {f : List String} :
     ∀ {acc : List String} {t : String}, t ∈ f.foldl addNoDup acc ↔ t ∈ acc ∨ t ∈ f := by
   induction f with
   | nil => intro acc t; simp
   | cons x xs ih =>
     intro acc t
-    rw [List.foldl_cons, ih, mem_addNoDup, List.mem_cons]
+    rw [List.foldl_cons, ih, addNoDup_mem_iff, List.mem_cons]
     constructor
     · rintro ((h | h) | h)
       · exact Or.inl h
@@ -334,7 +335,7 @@ theorem mem_firstS_go {S : PSymbols} {fs : FirstSets} {t : String} :
     simp only [firstS.go] at h
     split at h
     · rcases ih _ _ h with h' | ⟨z, hz, hz'⟩
-      · rcases mem_foldl_addNoDup.1 h' with h'' | h''
+      · rcases foldl_addNoDup_mem_iff.1 h' with h'' | h''
         · exact Or.inl h''
         · exact Or.inr ⟨y, List.mem_cons_self .., h''⟩
       · exact Or.inr ⟨z, List.mem_cons_of_mem _ hz, hz'⟩
@@ -352,7 +353,7 @@ theorem mem_firstS {S : PSymbols} {fs : FirstSets} {syms : List String} {t : Str
       · exact h
       · exact (List.mem_filter.1 h).1
     rcases mem_firstS_go _ _ _ key with h' | ⟨z, hz, hz'⟩
-    · rcases mem_foldl_addNoDup.1 h' with h'' | h''
+    · rcases foldl_addNoDup_mem_iff.1 h' with h'' | h''
       · cases h''
       · exact ⟨x, List.mem_cons_self .., h''⟩
     · exact ⟨z, List.mem_cons_of_mem _ hz, hz'⟩
@@ -472,7 +473,7 @@ theorem firstSetsFuel_stable {S : PSymbols} {prods : List SProd} (hW : WFp S pro
 
 /-! ### `NewSymbols` establishes `WFp` -/
 
-theorem foldlM_except_inv {α β ε : Type} (f : β → α → Except ε β) (R : β → β → Prop)
+theorem foldlM_except_rel {α β ε : Type} (f : β → α → Except ε β) (R : β → β → Prop)
     (Q : α → β → Prop) (hrefl : ∀ b, R b b) (htrans : ∀ a b c, R a b → R b c → R a c)
     (hmono : ∀ a b b', Q a b → R b b' → Q a b')
     (hstep : ∀ b a b', f b a = .ok b' → R b b' ∧ Q a b') :
@@ -514,23 +515,23 @@ theorem symAddSym_ok {s s' : PSymbols} {sym : SSym} (h : symAddSym s sym = .ok s
   · split at h
     · cases h
     · cases h
-      exact ⟨⟨fun _ h => h, fun x hx => mem_addNoDup.2 (Or.inl hx)⟩, mem_addNoDup.2 (Or.inr rfl)⟩
+      exact ⟨⟨fun _ h => h, fun x hx => addNoDup_mem_iff.2 (Or.inl hx)⟩, addNoDup_mem_iff.2 (Or.inr rfl)⟩
   · cases h
-    exact ⟨⟨fun _ h => h, fun x hx => mem_addNoDup.2 (Or.inl hx)⟩, mem_addNoDup.2 (Or.inr rfl)⟩
+    exact ⟨⟨fun _ h => h, fun x hx => addNoDup_mem_iff.2 (Or.inl hx)⟩, addNoDup_mem_iff.2 (Or.inr rfl)⟩
 
 theorem symAddProd_ok {s s' : PSymbols} {p : SProd} (h : symAddProd s p = .ok s') :
     PLe s s' ∧ (p.head ∈ s'.ntList ∧ ∀ sym ∈ p.body, sym.name ∈ s'.typeMap) := by
   unfold symAddProd at h
-  have := foldlM_except_inv symAddSym PLe (fun sym s => sym.name ∈ s.typeMap) PLe.refl PLe.trans
+  have := foldlM_except_rel symAddSym PLe (fun sym s => sym.name ∈ s.typeMap) PLe.refl PLe.trans
     (fun a b b' hq hr => hr.2 _ hq) (fun b a b' hb => symAddSym_ok hb) _ _ _ h
-  refine ⟨⟨fun x hx => this.1.1 x (mem_addNoDup.2 (Or.inl hx)),
-    fun x hx => this.1.2 x (mem_addNoDup.2 (Or.inl hx))⟩, ?_, this.2⟩
-  exact this.1.1 _ (mem_addNoDup.2 (Or.inr rfl))
+  refine ⟨⟨fun x hx => this.1.1 x (addNoDup_mem_iff.2 (Or.inl hx)),
+    fun x hx => this.1.2 x (addNoDup_mem_iff.2 (Or.inl hx))⟩, ?_, this.2⟩
+  exact this.1.1 _ (addNoDup_mem_iff.2 (Or.inr rfl))
 
 theorem newSymbols_WFp {prods : List SProd} {S0 : PSymbols} (h : newSymbols prods = .ok S0) :
     WFp S0 prods := by
   unfold newSymbols at h
-  have := foldlM_except_inv symAddProd PLe
+  have := foldlM_except_rel symAddProd PLe
     (fun p s => p.head ∈ s.ntList ∧ ∀ sym ∈ p.body, sym.name ∈ s.typeMap) PLe.refl PLe.trans
     (fun a b b' hq hr => ⟨hr.1 _ hq.1, fun sym hs => hr.2 _ (hq.2 sym hs)⟩)
     (fun b a b' hb => symAddProd_ok hb) _ _ _ h
@@ -542,7 +543,7 @@ theorem WFp_addTokens {prods : List SProd} {S : PSymbols} (h : WFp S prods) (ids
   have := h p hp
   refine ⟨this.1, fun s hs => ?_⟩
   show s.name ∈ ids.foldl addNoDup S.typeMap
-  exact mem_foldl_addNoDup.2 (Or.inl (this.2 s hs))
+  exact foldl_addNoDup_mem_iff.2 (Or.inl (this.2 s hs))
 
 
 /-! ## LR(1) closure -/
@@ -864,7 +865,7 @@ theorem firstSets_inv {S : PSymbols} {prods : List SProd} (hW : WFp S prods) :
 theorem newSymbols_mono {prods : List SProd} {S0 : PSymbols} (h : newSymbols prods = .ok S0) :
     PLe { typeMap := ["INVALID", "␚"] } S0 := by
   unfold newSymbols at h
-  have := foldlM_except_inv symAddProd PLe
+  have := foldlM_except_rel symAddProd PLe
     (fun p s => p.head ∈ s.ntList ∧ ∀ sym ∈ p.body, sym.name ∈ s.typeMap) PLe.refl PLe.trans
     (fun a b b' hq hr => ⟨hr.1 _ hq.1, fun sym hs => hr.2 _ (hq.2 sym hs)⟩)
     (fun b a b' hb => symAddProd_ok hb) _ _ _ h
@@ -1117,5 +1118,194 @@ theorem genParser_shape {syn : List SProd} {ids : List String} {r : LRResult}
     · simp only [pure, Except.pure] at h
       cases h
       exact ⟨rfl, rfl⟩
+
+/-! ## (C) lexer ε-closure `emoves` — partial result
+Depth-first work list with a visited set.  We prove completeness of `emovesLoop` relative to an
+explicit finite universe `U` of items that is closed under `emoveStep` (for non-basic items) with
+out-degree at most `D`: fuel `1 + |U| * (D + 1)` suffices.  What is NOT proved here is the
+construction, for an arbitrary pattern, of such a `U` with `1 + |U| * (D + 1) ≤ (C.fuel + 2)^2`
+(a counting argument over the positions of the pattern tree); for a concrete lexer the universe
+can be supplied and checked by `decide`. -/
+
+theorem litem_beq (a b : LItem) : (a == b) = (a.prod == b.prod && a.path == b.path) := by
+  cases a; cases b; rfl
+
+instance : LawfulBEq LItem where
+  eq_of_beq := by
+    intro a b h
+    rw [litem_beq] at h
+    cases a; cases b
+    simpa using h
+  rfl := by
+    intro a; rw [litem_beq]; simp
+
+/-- reachability by `emoveStep` through non-basic items (basic items are not expanded) -/
+inductive EReach (C : LexCtx) (s : LItem) : LItem → Prop
+  | refl : EReach C s s
+  | step {x y : LItem} : EReach C s x → C.isBasic x = false → y ∈ emoveStep C x → EReach C s y
+
+/-- a finite universe closed under the ε-step, with bounded out-degree -/
+structure EUniv (C : LexCtx) (U : List LItem) (D : Nat) : Prop where
+  closed : ∀ x ∈ U, C.isBasic x = false → ∀ y ∈ emoveStep C x, y ∈ U
+  deg : ∀ x ∈ U, C.isBasic x = false → (emoveStep C x).length ≤ D
+
+instance (C : LexCtx) (U : List LItem) (D : Nat) : Decidable (EUniv C U D) :=
+  decidable_of_iff
+    ((∀ x ∈ U, C.isBasic x = false → ∀ y ∈ emoveStep C x, y ∈ U) ∧
+     (∀ x ∈ U, C.isBasic x = false → (emoveStep C x).length ≤ D))
+    ⟨fun ⟨a, b⟩ => ⟨a, b⟩, fun h => ⟨h.closed, h.deg⟩⟩
+
+/-- the strictly decreasing potential of the loop -/
+def ePot (U : List LItem) (D : Nat) (work visited : List LItem) : Nat :=
+  work.length + (U.length - visited.length) * (D + 1)
+
+structure EInv (C : LexCtx) (U work visited out : List LItem) : Prop where
+  vnodup : visited.Nodup
+  vsub : ∀ x ∈ visited, x ∈ U
+  wsub : ∀ x ∈ work, x ∈ U
+  succ : ∀ x ∈ visited, C.isBasic x = false → ∀ y ∈ emoveStep C x, y ∈ visited ∨ y ∈ work
+  basic : ∀ x ∈ visited, C.isBasic x = true → x ∈ out
+
+theorem emovesLoop_spec {C : LexCtx} {U : List LItem} {D : Nat} (hU : EUniv C U D) :
+    ∀ (fuel : Nat) (work visited out : List LItem), EInv C U work visited out →
+      ePot U D work visited ≤ fuel →
+      ∃ V : List LItem, (∀ x ∈ work, x ∈ V) ∧ (∀ x ∈ visited, x ∈ V) ∧
+        (∀ x ∈ V, C.isBasic x = false → ∀ y ∈ emoveStep C x, y ∈ V) ∧
+        (∀ x ∈ V, C.isBasic x = true → x ∈ emovesLoop C fuel work visited out) := by
+  have hdone : ∀ (fuel : Nat) (visited out : List LItem), EInv C U [] visited out →
+      emovesLoop C fuel [] visited out = out →
+      ∃ V : List LItem, (∀ x ∈ ([] : List LItem), x ∈ V) ∧ (∀ x ∈ visited, x ∈ V) ∧
+        (∀ x ∈ V, C.isBasic x = false → ∀ y ∈ emoveStep C x, y ∈ V) ∧
+        (∀ x ∈ V, C.isBasic x = true → x ∈ emovesLoop C fuel [] visited out) := by
+    intro fuel visited out h heq
+    refine ⟨visited, by simp, fun x hx => hx, ?_, ?_⟩
+    · intro x hx hb y hy
+      rcases h.succ x hx hb y hy with h' | h'
+      · exact h'
+      · cases h'
+    · intro x hx hb
+      rw [heq]; exact h.basic x hx hb
+  intro fuel
+  induction fuel with
+  | zero =>
+    intro work visited out h hp
+    have : work = [] := by
+      unfold ePot at hp
+      exact List.eq_nil_of_length_eq_zero (by omega)
+    subst this
+    exact hdone 0 visited out h (by simp only [emovesLoop])
+  | succ fuel ih =>
+    intro work visited out h hp
+    cases work with
+    | nil => exact hdone (fuel + 1) visited out h (by simp only [emovesLoop])
+    | cons i work =>
+      have hiU : i ∈ U := h.wsub i (List.mem_cons_self ..)
+      simp only [emovesLoop]
+      by_cases hv : visited.contains i = true
+      · -- already visited: drop it
+        have hiv : i ∈ visited := by simpa using hv
+        simp only [hv, if_true]
+        have hinv : EInv C U work visited out := by
+          refine ⟨h.vnodup, h.vsub, fun x hx => h.wsub x (List.mem_cons_of_mem _ hx), ?_, h.basic⟩
+          intro x hx hb y hy
+          rcases h.succ x hx hb y hy with h' | h'
+          · exact Or.inl h'
+          · rcases List.mem_cons.1 h' with rfl | h''
+            · exact Or.inl hiv
+            · exact Or.inr h''
+        obtain ⟨V, v1, v2, v3, v4⟩ := ih work visited out hinv (by
+          unfold ePot at hp ⊢; simp only [List.length_cons] at hp; omega)
+        refine ⟨V, ?_, v2, v3, v4⟩
+        intro x hx
+        rcases List.mem_cons.1 hx with rfl | hx
+        · exact v2 _ hiv
+        · exact v1 x hx
+      · have hiv : i ∉ visited := by simpa using hv
+        have hnd : (i :: visited).Nodup := List.nodup_cons.2 ⟨hiv, h.vnodup⟩
+        have hsub : ∀ x ∈ i :: visited, x ∈ U := by
+          intro x hx
+          rcases List.mem_cons.1 hx with rfl | hx
+          · exact hiU
+          · exact h.vsub x hx
+        have hlen : visited.length + 1 ≤ U.length := by
+          have := List.Nodup.length_le_of_subset hnd (fun x hx => hsub x hx)
+          simpa using this
+        have hsplit : (U.length - visited.length) * (D + 1) =
+            (U.length - (visited.length + 1)) * (D + 1) + (D + 1) := by
+          have : U.length - visited.length = (U.length - (visited.length + 1)) + 1 := by omega
+          rw [this, Nat.succ_mul]
+        simp only [hv]
+        by_cases hb : C.isBasic i = true
+        · simp only [hb, if_true]
+          have hinv : EInv C U work (i :: visited) (out ++ [i]) := by
+            refine ⟨hnd, hsub, fun x hx => h.wsub x (List.mem_cons_of_mem _ hx), ?_, ?_⟩
+            · intro x hx hbx y hy
+              rcases List.mem_cons.1 hx with rfl | hx
+              · rw [hb] at hbx; cases hbx
+              · rcases h.succ x hx hbx y hy with h' | h'
+                · exact Or.inl (List.mem_cons_of_mem _ h')
+                · rcases List.mem_cons.1 h' with rfl | h''
+                  · exact Or.inl (List.mem_cons_self ..)
+                  · exact Or.inr h''
+            · intro x hx hbx
+              rcases List.mem_cons.1 hx with rfl | hx
+              · simp
+              · exact List.mem_append_left _ (h.basic x hx hbx)
+          obtain ⟨V, v1, v2, v3, v4⟩ := ih work (i :: visited) (out ++ [i]) hinv (by
+            unfold ePot at hp ⊢; simp only [List.length_cons] at hp ⊢; omega)
+          refine ⟨V, ?_, fun x hx => v2 x (List.mem_cons_of_mem _ hx), v3, v4⟩
+          intro x hx
+          rcases List.mem_cons.1 hx with rfl | hx
+          · exact v2 _ (List.mem_cons_self ..)
+          · exact v1 x hx
+        · have hb' : C.isBasic i = false := by simpa using hb
+          simp only [hb', Bool.false_eq_true, if_false]
+          have hinv : EInv C U ((emoveStep C i).reverse ++ work) (i :: visited) out := by
+            refine ⟨hnd, hsub, ?_, ?_, ?_⟩
+            · intro x hx
+              rcases List.mem_append.1 hx with hx | hx
+              · exact hU.closed i hiU hb' x (List.mem_reverse.1 hx)
+              · exact h.wsub x (List.mem_cons_of_mem _ hx)
+            · intro x hx hbx y hy
+              rcases List.mem_cons.1 hx with rfl | hx
+              · exact Or.inr (List.mem_append_left _ (List.mem_reverse.2 hy))
+              · rcases h.succ x hx hbx y hy with h' | h'
+                · exact Or.inl (List.mem_cons_of_mem _ h')
+                · rcases List.mem_cons.1 h' with rfl | h''
+                  · exact Or.inl (List.mem_cons_self ..)
+                  · exact Or.inr (List.mem_append_right _ h'')
+            · intro x hx hbx
+              rcases List.mem_cons.1 hx with rfl | hx
+              · rw [hb'] at hbx; cases hbx
+              · exact h.basic x hx hbx
+          have hdeg := hU.deg i hiU hb'
+          obtain ⟨V, v1, v2, v3, v4⟩ := ih _ (i :: visited) out hinv (by
+            unfold ePot at hp ⊢
+            simp only [List.length_cons, List.length_append, List.length_reverse] at hp ⊢
+            omega)
+          refine ⟨V, ?_, fun x hx => v2 x (List.mem_cons_of_mem _ hx), v3, v4⟩
+          intro x hx
+          rcases List.mem_cons.1 hx with rfl | hx
+          · exact v2 _ (List.mem_cons_self ..)
+          · exact v1 x (List.mem_append_right _ hx)
+
+/-- PARTIAL (relative to a supplied universe): every basic item reachable from `i` is returned by
+    `emoves C i`, provided some `emoveStep`-closed universe `U ∋ i` with out-degree `≤ D`
+    satisfies `1 + |U| * (D + 1) ≤ (C.fuel + 2)^2`. -/
+theorem emoves_complete_of_universe {C : LexCtx} {i : LItem} {U : List LItem} {D : Nat}
+    (hU : EUniv C U D) (hi : i ∈ U)
+    (hfuel : 1 + U.length * (D + 1) ≤ (C.fuel + 2) * (C.fuel + 2)) :
+    ∀ y, EReach C i y → C.isBasic y = true → y ∈ emoves C i := by
+  unfold emoves
+  obtain ⟨V, v1, _, v3, v4⟩ := emovesLoop_spec hU ((C.fuel + 2) * (C.fuel + 2)) [i] [] []
+    ⟨by simp, by simp, by simpa using hi, by simp, by simp⟩
+    (by unfold ePot; simpa using hfuel)
+  intro y hy
+  have hV : y ∈ V := by
+    induction hy with
+    | refl => exact v1 i (List.mem_cons_self ..)
+    | step _ hnb hstep ih => exact v3 _ ih hnb _ hstep
+  intro hb
+  exact v4 y hV hb
 
 end Gocc
